@@ -371,7 +371,7 @@ func main() {
 	r.Set("exhaustive_layout_complete", true)   // every shard walks its residue class completely
 
 	// phase 2: random cases
-	n := r.Pick(40000, 100000)
+	n := r.Pick(30000, 100000)
 	for i := 0; i < n; i++ {
 		seed := rng.Uint64()
 		c := genCase(rand.New(rand.NewSource(int64(seed))))
